@@ -30,7 +30,8 @@ COMMON_ASSUMPTIONS = [
     "sync.Mutex gives mutual exclusion: every coordinator request is one atomic step of the model (the commit race of C13 is the one place where two requests are interleaved, through a gate inside the store)",
     "member ids drawn by newMemberID are fresh (a collision of two rand.Int63 values is ignored); the model takes the id as an input and the theorems hold for every fresh choice",
     "time: the harness shifts stored timestamps backwards (lastHeartbeat, rebalanceDeadline, persisted HeartbeatAt) instead of waiting; ticks are chosen so that no comparison sits within 1 s of its boundary",
-    "the in-memory metadata store is the store under test; kmsg encodes subscriptions / decodes assignments (real client wire format)",
+    "stores under test: the real InMemoryStore (all histories but a few) and the real EtcdStore on an embedded etcd (a few histories per run; names without '/'); kmsg encodes subscriptions / decodes assignments (real client wire format)",
+    "a history in which a single op took more than 250 ms of real time (starved machine) is discarded, not compared: virtual time cannot be kept exact across it (count in evidence: histories_discarded_slow_machine)",
 ]
 
 
@@ -234,7 +235,9 @@ class Gen:
         if r.chance(p.get("start_converged", 70), 100):
             for g in self.gids:
                 self.converge(g)
-        while len(self.ops) < nops:
+        guard = 0
+        while len(self.ops) < nops and guard < 40 * nops:
+            guard += 1
             k = r.choice(kinds)
             g = r.choice(self.gids)
             if k == "join":
@@ -272,7 +275,12 @@ class Gen:
             elif k == "failover_lazy":
                 self.failover(False)
             elif k == "fail":
-                self.emit("fail %d" % r.choice(p.get("fail_kinds", [0, 1, 2, 3, 4, 5])))
+                fk = p.get("fail_kinds", [0, 1, 2, 3, 4, 5])
+                if self.ngroups > 1:
+                    # cleanupGroups walks a Go map: with two groups the one-shot put/delete fault would hit
+                    # whichever group comes first — not a difference the model can (or should) predict
+                    fk = [k2 for k2 in fk if k2 not in (0, 1)] or [3]
+                self.emit("fail %d" % r.choice(fk))
             elif k == "meta":
                 self.set_meta()
             elif k == "race":
@@ -357,6 +365,8 @@ def run_impl(ck, binary, ops, tag="x"):
     open(fn, "w").write("\n".join(ops) + "\n")
     rc, out, err = ck.run_bin(binary, stdin_path=fn, timeout=300)
     impl = [strip_new(l) for l in out.split("\n")[:-1]]
+    if any(l.startswith("SLOW ") for l in impl):
+        return None
     return impl if (rc == 0 and len(impl) == len(ops)) else None
 
 
@@ -594,6 +604,9 @@ def run_property(ck, prof, monitor, n_quick, n_thorough, nops, rule, variant="",
     seen_fp = set()
     for (a, b) in bounds:
         ops, io, mo = all_ops[a:b], impl[a:b], model[a:b]
+        if any(l.startswith("SLOW ") for l in io):
+            ck.count("histories_discarded_slow_machine")
+            continue
         tr = Trace(ops, io)
         stats = monitor_stats(tr)
         for k, v in stats.items():
